@@ -12,6 +12,8 @@
 (*   [41] FF E0+r             jmp r64          (any register)                  *)
 (*   FF 25 00 00 00 00 + qword   jmp [rip+0]                                   *)
 (*   90                  nop                                                   *)
+(*   B0+r ib             mov  al/cl/dl/bl, imm8   (compiled boolean stubs)      *)
+(*   31/33 C0|C9|D2|DB   xor  e?x, e?x                                          *)
 (* Memory is a set of segments [base |-> 8-byte word, bytes |-> seq]; a fetch  *)
 (* outside every segment ends the run with status "left" (control has left the *)
 (* code under examination) at that pc.  Unknown bytes give "unknown", which is *)
@@ -58,6 +60,10 @@ StepX(segs, st) ==
     ELSE IF op = 65 /\ CanFetch(segs, st.pc, 3) /\ Fetch(segs, st.pc, 3)[2] = 255
             /\ Fetch(segs, st.pc, 3)[3] \in 224..231                                       \* 41 FF /4: jmp r8..r15
     THEN [st EXCEPT !.pc = st.r[Fetch(segs, st.pc, 3)[3] - 224 + 8], !.n = @ + 1]
+    ELSE IF op \in 176..179 /\ CanFetch(segs, st.pc, 2)                                       \* B0+r ib: mov al/cl/dl/bl, imm8
+    THEN SetReg(st, op - 176, <<Fetch(segs, st.pc, 2)[2]>> \o Slice(st.r[op - 176], 2, 7), 2)
+    ELSE IF op \in {49, 51} /\ CanFetch(segs, st.pc, 2) /\ Fetch(segs, st.pc, 2)[2] \in {192, 201, 210, 219}
+    THEN SetReg(st, (Fetch(segs, st.pc, 2)[2] - 192) \div 9, [i \in 1..8 |-> 0], 2)          \* 31/33 /r, reg = rm: xor e?x, e?x
     ELSE IF op = 255 /\ CanFetch(segs, st.pc, 14) /\ Slice(Fetch(segs, st.pc, 6), 2, 5) = <<37, 0, 0, 0, 0>>
     THEN [st EXCEPT !.pc = Slice(Fetch(segs, st.pc, 14), 7, 8), !.n = @ + 1]                  \* FF 25 00000000 ; qword
     ELSE [st EXCEPT !.status = "unknown"]
